@@ -9,6 +9,9 @@ sys.path.insert(0, '/verif')
 from lib.driver import Ob, run_worker  # noqa: E402
 
 culture, budget = sys.argv[1], int(sys.argv[2])
+check = 'shape'
+if ':' in culture:
+    culture, check = culture.split(':')
 qs = sys.argv[3:]
 if qs == ['-']:
     qs = json.load(sys.stdin)
@@ -17,7 +20,7 @@ ob = Ob('try', 'sx', 'harness.apidt:h_wellformed', timeout=budget)
 
 def run(q):
     t = time.time()
-    r = run_worker('run', ob, {'q': q, 'culture': culture}, budget, budget + 60, {})
+    r = run_worker('run', ob, {'q': q, 'culture': culture, 'check': check}, budget, budget + 60, {})
     return q, r.get('state'), round(time.time() - t, 1), str(r.get('detail'))[:300], r.get('cex')
 
 
